@@ -254,6 +254,14 @@ def tensor_binop(it, op, a, b, node):
         t = T.app(op.lower(), ta, tb) if ta is not None and tb is not None else None
     else:
         t = complexwise(op, ta, tb, sa, sb)
+        if op == "Mult" and ta is not None and tb is not None:
+            # x.unsqueeze(-1) * y.unsqueeze(-2): the outer product over the last axes, one normal form with einsum('...j,...k->...jk')
+            for p_, q_ in ((ta, tb), (tb, ta)):
+                pa_, qa_ = p_.single_atom(), q_.single_atom()
+                if (isinstance(pa_, T.App) and isinstance(qa_, T.App) and pa_.op == qa_.op == "unsq" and len(pa_.args) == 3 and len(qa_.args) == 3
+                        and pa_.args[1] == -1 and qa_.args[1] == -2 and pa_.args[2] == qa_.args[2]):
+                    t = T.app("einsum2", "...j,...k->...jk", pa_.args[0], qa_.args[0])
+                    break
     kind = "tensor" if "tensor" in kinds else "ndarray"
     r = it.fresh(t, shape, kind, node)
     if op == "Div" and ta is not None and tb is not None and hasattr(ta, "single_mono") and hasattr(tb, "terms"):
@@ -681,6 +689,15 @@ def index_tensor(it, tv, items, node):
     new_shape = None
     if shape is not None:
         new_shape = _index_shape(it, shape, items, node)
+    def _full(x):
+        if isinstance(x, VConst) and x.value is Ellipsis:
+            return True
+        if not isinstance(x, VSlice):
+            return False
+        return all(p_ is None or (isinstance(p_, VConst) and p_.value is None) for p_ in (x.lo, x.hi, x.step))
+
+    if items and all(_full(x) for x in items) and (shape is None or len([x for x in items if isinstance(x, VSlice)]) <= len(shape)):
+        return VTens(tv.obj, tv.view, tv.shape)  # x[:], x[:, :], x[...]: the same values (a view of everything)
     if not adv and not unk:
         # complex-component view x[k] / x[k, ...]
         first = items[0]
